@@ -253,7 +253,7 @@ def _fuzz_sig(err):
 
 
 def fuzz_enum(tier):
-    runs = 40000 if tier == "quick" else 800000
+    runs = 40000 if tier == "quick" else 300000
     return [dict(seed=3000 + i, runs=runs, wall=400 if tier == "quick" else 2700) for i in range(16)]
 
 
